@@ -94,7 +94,15 @@ _add(_c("r_gf_revbt", "LSN", [2, 2], [3, 4, 3], 1, "lsn", dict(orthogonal=True, 
 GFILE_GRIDS = ["r_gf_base", "r_gf_revcur", "r_gf_twopi", "r_gf_revbt"]
 # (m_ldn ny is mirrored below: region i of the mirrored double null is the mirror of region 4-i / 10-i)
 CONFIGS["m_udn"]["ny"] = [3, 3, 3, 3, 4, 3][2::-1] + [3, 3, 3, 3, 4, 3][:2:-1]
-C16_PAIRS = [("m_lsn", "m_usn", "mirror"), ("m_lsn_t", "m_usn_t", "mirror"), ("m_ldn", "m_udn", "mirror"), ("cdn_orth", "cdn_orth", "mirror"),
+# in-out asymmetric flux function (the X-point lobe is displaced in R): the two legs are not images of one another, so anything carried from the
+# tracing of one leg to the next (seed C16_leg_first_step_carried_over: the legs are traced inner-outer below, outer-inner above) shows
+_add(_c("m_lsn_tilt", "LSN", [2, 3], [3, 4, 5], 1, "lsn_tilt", dict(orthogonal=True), fpol="quad", wall="slanted"))
+_add(_c("m_usn_tilt", "USN", [2, 3], [5, 4, 3], 1, "lsn_tilt", dict(orthogonal=True), fpol="quad", wall="slanted", mirror=True))
+_add(_c("mn_lsn_tilt", "LSN", [2, 2], [3, 4, 4], 1, "lsn_tilt", dict(orthogonal=False), fpol="quad", wall="slanted"))
+_add(_c("mn_usn_tilt", "USN", [2, 2], [4, 4, 3], 1, "lsn_tilt", dict(orthogonal=False), fpol="quad", wall="slanted", mirror=True))
+_add(_c("m_lsn_tilt_w", "LSN", [2, 2], [3, 4, 3], 1, "lsn_tilt", dict(orthogonal=True), fpol="quad"))
+_add(_c("m_usn_tilt_w", "USN", [2, 2], [3, 4, 3], 1, "lsn_tilt", dict(orthogonal=True), fpol="quad", mirror=True))
+C16_PAIRS = [("m_lsn_tilt", "m_usn_tilt", "mirror"), ("mn_lsn_tilt", "mn_usn_tilt", "mirror"), ("m_lsn_tilt_w", "m_usn_tilt_w", "mirror"), ("m_lsn", "m_usn", "mirror"), ("m_lsn_t", "m_usn_t", "mirror"), ("m_ldn", "m_udn", "mirror"), ("cdn_orth", "cdn_orth", "mirror"),
              ("r_base", "r_negpsi", "negpsi"), ("r_base", "r_revcur", "same"), ("r_base", "r_revbt", "revbt"), ("r_base", "r_twopi", "same"),
              ("rn_base", "rn_negpsi", "negpsi"),
              ("r_gf_base", "r_gf_revcur", "same"), ("r_gf_base", "r_gf_twopi", "same"), ("r_gf_base", "r_gf_revbt", "revbt"),
